@@ -203,6 +203,11 @@ def check_request(ctx, seed, k):
             o = one(ctx, schema, doc, src, variables, value_fn, s0, p_async, policy, early, ('aclose', kk), rng.random() < 0.3, base_case)
             if o is not None and o.state_at_stop is not None:
                 states.add(o.state_at_stop)
+            if seed % 11 == 6 and policy != 'slow-consumer':
+                # stream templates: every stop point once more with producers running as far ahead of the consumer as they can
+                o = one(ctx, schema, doc, src, variables, value_fn, s0 + 3, 1.0, 'slow-consumer', early, ('aclose', kk), False, base_case)
+                if o is not None and o.state_at_stop is not None:
+                    states.add(o.state_at_stop)
         for reason in (Reason('stop'), 'plain-string-reason', None):
             for j in range(2):
                 o = one(ctx, schema, doc, src, variables, value_fn, s0 + 7 * (j + 1), p_async, 'random', early, ('abort', reason), True, base_case)
@@ -221,7 +226,7 @@ def run_shard(ctx):
         check_request(ctx, base + k, k)
     # the template families (streams on async sources, fragments split into several units of work, overlapping and
     # list-nested fragments) get a share of their own: they are where stops meet half-built incremental state
-    for k in range(ctx.n(400, 8000)):
+    for k in range(ctx.n(800, 12000)):
         fam = (6, 6, 6, 10, 7, 9)[k % 6]
         ctx.count("template_family_requests")
         check_request(ctx, (base + k) * 11 + fam, k + 1)
